@@ -36,6 +36,8 @@ def shards(tier, seed):
         for nthreads, draws, bound in ((2, 1, 3), (2, 2, 3), (2, 3, 3), (3, 1, 3), (3, 2, 2 if tier == "quick" else 3)):
             for start in ("mid", "max-2", "max-1", "max"):
                 cfgs.append({"gen": gen, "threads": nthreads, "draws": draws, "bound": bound, "start": start})
+    out.append({"name": "node_aligned", "kind": "node_aligned",
+                "deltas": list(range(-6, 7)) if tier == "quick" else list(range(-16, 17))})
     n = 12 if tier == "quick" else 14
     for i in range(n):
         out.append({"name": f"sched{i}", "kind": "sched", "cfgs": cfgs[i::n],
@@ -286,11 +288,115 @@ def run_stress(spec):
             "coverage": {"free_running_draws": n}}
 
 
+class ScriptedRandom:
+    """Stands in for the `random` module inside diameter.node._helpers: randint returns what the scenario says
+    (clamped to the asked range).  Any such outcome is one the real generator can produce."""
+
+    def __init__(self, real, plan):
+        self.real, self.plan = real, plan
+
+    def randint(self, a, b):
+        v = self.plan(a, b)
+        return min(max(v, a), b) if v is not None else self.real.randint(a, b)
+
+    def __getattr__(self, name):
+        return getattr(self.real, name)
+
+
+def run_node_aligned(spec):
+    """Identifiers as the *node* hands them out, with the random start values of the connection's hop-by-hop
+    generator and of the node's end-to-end generator next to each other: every request the node originates on
+    the connection (application requests, watchdog requests, the disconnect request of stop()) must bear a
+    hop-by-hop id distinct from the others on that connection, and end-to-end ids distinct node-wide."""
+    from vf.simnet.world import World, REALM, app_request
+    from vf.simnet import msgs as M
+    import diameter.node._helpers as helpers
+    wit, evals, hashes = [], 0, set()
+    real_random = helpers.random
+    PEER = "peer1.verif.example"
+    cases = 0
+    try:
+        for direction in ("in", "out"):
+            for delta in spec["deltas"]:
+                low20 = 0x00500
+                st = {}
+
+                def plan(a, b, st=st):
+                    if b == 0x000fffff:          # the 20 random bits of the end-to-end start value
+                        return low20
+                    if (a, b) == (1, 0xffffffff) and "e0" in st:
+                        return (st["e0"] + delta) & 0xffffffff or 1
+                    return None
+
+                helpers.random = ScriptedRandom(real_random, plan)
+                pc = {"name": PEER, "timers": {"idle_timeout": 5}}
+                if direction == "out":
+                    pc.update(persistent=True, reconnect_wait=10 ** 6)
+                w = World(dict(peers=[pc], apps=[{"tag": "a4", "id": 4, "peers": [PEER]}],
+                               node={"idle_timeout": 5, "dwa_timeout": 10 ** 6, "cea_timeout": 10 ** 6}))
+                h = w.h
+                try:
+                    st["e0"] = w.node.end_to_end_seq.sequence
+                    w.start()
+                    if direction == "in":
+                        sp = h.inbound(ip="10.1.0.1", port=50001)
+                        h.settle()
+                        sp.send(M.cer(PEER, REALM, auth=[4], hbh=1, e2e=1))
+                    else:
+                        h.settle()
+                        sp = h.outbound_peers[-1]
+                        sp.drain()
+                        cer = sp.frames[-1]
+                        sp.send(M.cea(PEER, REALM, auth=[4], hbh=cer.h.hbh, e2e=cer.h.e2e))
+                    h.settle()
+                    for i in range(3):
+                        app_request(w.apps["a4"], REALM, 0.002, {}, session=f"a;{i}")
+                        h.settle()
+                    h.advance(6)          # idle: watchdog request
+                    h.settle()
+                    sp.drain()
+                    d = [f for f in sp.frames if f.is_request and f.h.code == 280]
+                    if d:
+                        sp.send(M.dwa(PEER, REALM, hbh=d[-1].h.hbh, e2e=d[-1].h.e2e))
+                        h.settle()
+                    app_request(w.apps["a4"], REALM, 0.002, {}, session="a;3")
+                    h.settle()
+                    sp.drain()
+                    reqs = [f for f in sp.frames if f.is_request]
+                    hb = [f.h.hbh for f in reqs]
+                    ee = [f.h.e2e for f in reqs]
+                    evals += 1
+                    cases += 1
+                    hashes.add(h64("aligned", direction, delta))
+                    ctx = {"direction": direction, "delta": delta, "requests": [repr(f) for f in reqs]}
+                    if len(reqs) < 5:
+                        wit.append({"key": "ids.node_aligned.setup", "detail": ctx})
+                    if 0 in hb or 0 in ee:
+                        wit.append({"key": "ids.node.zero_identifier", "detail": ctx,
+                                    "replay": {"aligned": [direction, delta]}})
+                    if len(set(hb)) != len(hb):
+                        wit.append({"key": "ids.node.hop_by_hop_duplicate_on_connection", "detail": ctx,
+                                    "replay": {"aligned": [direction, delta]}})
+                    if len(set(ee)) != len(ee):
+                        wit.append({"key": "ids.node.end_to_end_duplicate", "detail": ctx,
+                                    "replay": {"aligned": [direction, delta]}})
+                finally:
+                    helpers.random = real_random
+                    w.teardown()
+    finally:
+        helpers.random = real_random
+    return {"evaluations": evals, "hashes": sorted(hashes), "witnesses": wit, "samples": [],
+            "coverage": {"node_aligned_cases": cases}}
+
+
 def run_shard(spec):
-    return {"sched": run_sched, "sequential": run_sequential, "stress": run_stress}[spec["kind"]](spec)
+    return {"sched": run_sched, "sequential": run_sequential, "stress": run_stress,
+            "node_aligned": run_node_aligned}[spec["kind"]](spec)
 
 
 def replay(obj):
+    if "aligned" in obj:
+        return run_node_aligned({"deltas": [obj["aligned"][1]]})
     spec = {"cfgs": [obj["cfg"]], "budget": 30}
     # re-run the configuration's exploration; the recorded schedule is among its executions
     return run_sched(spec)
